@@ -52,8 +52,15 @@ func VerifC04_TitleID() {
 	idLen := verifrt.Choice("titleid-length", 8)
 	lens := [8]int{0, 1, 3, 4, 9, 31, 32, 40}
 	id := make([]byte, lens[idLen])
+	// content: letters, or padded the way some SFO editors write the field (all spaces, two letters + spaces)
+	content := verifrt.Choice("titleid-content", 3)
 	for i := range id {
-		id[i] = 'A' + byte(i%26)
+		switch {
+		case content == 1, content == 2 && i >= 2:
+			id[i] = ' '
+		default:
+			id[i] = 'A' + byte(i%26)
+		}
 	}
 	declared := len(id) + 1
 	if verifrt.Bool("declared-length-zero") {
@@ -67,7 +74,7 @@ func VerifC04_TitleID() {
 	verifAddEntries(fsys, root, "/d")
 	v, err := NewVirtualISO(fsys, "/d", true)
 	verifrt.Assert((v == nil) == (err != nil), "titleid.image-or-error")
-	if len(id) >= 4 && len(id) <= 31 && declared != 0 {
+	if len(id) >= 4 && len(id) <= 31 && declared != 0 && content == 0 { // what a padded id should yield is not fixed by the property: image or error, never a crash
 		verifrt.Assert(err == nil, "titleid.valid-lengths-accepted")
 	}
 }
